@@ -37,10 +37,32 @@ func checkC01(c *Check) {
 	reportGuard(c, "UNGUARDED-SITE", res)
 	c01ExitStatus(c)
 	runRec(c, "RECURSION", entries, nil)
+	// implicit panics of the look-up / index kinds (R-DEREF) in functions of the
+	// compile path that no recover barrier protects — the loader-facing wrappers
+	// around Parse included
+	derefEntries := append([]*ssa.Function{}, entries...)
+	for _, f := range p.RepoFuncs() {
+		if fnPkgPath(f) == p.Pkg(parsePkg).PkgPath && f.Parent() == nil && f.Object() != nil && f.Object().Exported() && f.Signature.Recv() == nil {
+			for _, e := range entries {
+				if repoReach(p, f)[e] {
+					derefEntries = append(derefEntries, f)
+					break
+				}
+			}
+		}
+	}
+	resD := runGuard(p, derefEntries)
+	runDeref(c, "UNCHECKED-LOOKUP", derefEntries, resD, nil)
 	// termination of the import flatten (its membership scan is the guard of
 	// the flattenSpecs recursion) is decided by the C05 rule, evaluated here too
 	if ic := findImportClosure(c); ic != nil && ic.canon != nil {
 		c05Flatten(c, ic)
+		// an unsynchronised access to the file table shared by the import fetchers
+		// ends in "fatal error: concurrent map read and map write", which no
+		// recover barrier stops: the lock rules of C05 are evaluated here too
+		if ic.collector != nil {
+			collectorSharing(c, ic)
+		}
 	}
 	// termination: a mutex taken on the compile path is released on every exit
 	n := blockingResources(c, "LOCK-PAIR", "HELD-ACROSS-NESTING", reachSet(p, entries))
@@ -78,21 +100,18 @@ func c01GuardStructure(c *Check) {
 			c.Cond(prot, "PARSE-BARRIER", key+"|Sysl_file under recover", p.pos(cl.Pos()),
 				"the ANTLR parse runs after a defer whose function calls recover() and neither re-panics nor exits",
 				"the ANTLR parse is not protected by a recover barrier: a parser/lexer panic on malformed input kills the process")
-			// (a') the recover path produces a non-nil error: the deferred closure stores to the named error result
-			setsErr := false
-			for _, d := range recoverBarriers(f) {
-				if mc, ok := d.Call.Value.(*ssa.MakeClosure); ok {
-					fn := mc.Fn.(*ssa.Function)
-					eachInstr(fn, func(_ *ssa.BasicBlock, i ssa.Instruction) {
-						if s, ok := i.(*ssa.Store); ok {
-							if fv, ok := s.Addr.(*ssa.FreeVar); ok && isErrorType(fv.Type().(*types.Pointer).Elem()) && !isNilConst(s.Val) {
-								// store must be on the recover()!=nil branch
-								setsErr = true
-							}
-						}
-					})
+			// (a') the recover path produces a non-nil error: recoverBarriers only
+			// returns deferred recovers that assign the guarded function's named error
+			// result (from the closure, or from a named function deferred directly
+			// that is handed its address); one that does not is recorded as silent
+			setsErr := prot
+			eachInstr(f, func(_ *ssa.BasicBlock, i ssa.Instruction) {
+				if d, ok := i.(*ssa.Defer); ok {
+					if _, silent := silentGuards[d]; silent {
+						setsErr = false
+					}
 				}
-			}
+			})
 			c.Cond(setsErr, "PARSE-BARRIER", key+"|recovered panic becomes an error", p.pos(f.Pos()),
 				"the recovering closure assigns a non-nil value to the function's named error result",
 				"the recovering closure does not set the error result: a recovered parser panic would be reported as success")
@@ -258,7 +277,7 @@ func c01ExitStatus(c *Check) {
 		if !ok {
 			continue
 		}
-		k, isConst := constInt(ret.Results[0])
+		k, isConst := constInt(retVal(ret, 0))
 		if isConst && k == 0 {
 			// must be on the nil branch
 			gated := false
@@ -280,7 +299,7 @@ func c01ExitStatus(c *Check) {
 			continue
 		}
 		// non-constant return: phi of 1 and Exit.Code
-		okv := derives(ret.Results[0], func(v ssa.Value) bool {
+		okv := derives(retVal(ret, 0), func(v ssa.Value) bool {
 			if k, ok := constInt(v); ok && k != 0 {
 				return true
 			}
@@ -289,7 +308,7 @@ func c01ExitStatus(c *Check) {
 		if !okv {
 			// the mapping lives in a helper: every status it returns is a non-zero
 			// constant or the code carried by the error, and at least one is the former
-			okv = statusHelperOK(p, ret.Results[0], 0)
+			okv = statusHelperOK(p, retVal(ret, 0), 0)
 		}
 		c.Cond(okv, "EXIT-STATUS", fnName(main2)+"|error status defaults non-zero", p.pos(ret.Pos()),
 			"the status returned on the error path defaults to a non-zero constant (overridden only by the Exit code carried in the error)",
